@@ -148,7 +148,7 @@ def check(case):
         # the arrangement "changes with random_state": any two of these seeds coincide with probability <= 1/17! each
         e = huge[0]
         seen = {}
-        for s in (0, 1, 2, 7, 42, 43, 2 ** 31, 2 ** 32 - 1):
+        for s in (0, 1, 2, 7, 42, 43, 2 ** 31, 2 ** 32 - 1, 2 ** 32, 2 ** 32 + 7, 2 ** 40 + 42, 2 ** 64 + 1):
             f = must(lib(utils.split_data, data, ratios, random_state=s), ctx + " [seed %d]" % s)
             key = np.concatenate([np.asarray(f[i][e]) for i in range(nf)], axis=0)[:, 0].tobytes()
             if key in seen:
